@@ -116,7 +116,11 @@ func (sc *hpScenario) connectScript(n int) hpConnectScript {
 		return hpConnectScript{Kind: "ok"}
 	}
 	if n >= len(sc.Connects) {
-		n = len(sc.Connects) - 1
+		// the last script repeats, without its side effect (an inbound relayed conn per failed dial would
+		// make the notifiee start run after run)
+		c := sc.Connects[len(sc.Connects)-1]
+		c.Kind = strings.SplitN(c.Kind, "+", 2)[0]
+		return c
 	}
 	return sc.Connects[n]
 }
